@@ -55,6 +55,7 @@ type Destination struct {
 	// set in/via Run()
 	In                  chan []byte        `json:"-"` // incoming metrics
 	shutdown            chan bool          // signals shutdown internally
+	done                chan struct{}      // closed when the relay loop has exited. nothing reads from In anymore then
 	spool               *Spool             // queue used if spooling enabled
 	connUpdates         chan *Conn         // channel for newly created connection. It replaces any previous connection
 	inConnUpdate        chan bool          // to signal when we start a new conn and when we finish
@@ -190,6 +191,7 @@ func (dest *Destination) Run() {
 	}
 	dest.In = make(chan []byte)
 	dest.shutdown = make(chan bool)
+	dest.done = make(chan struct{})
 	dest.connUpdates = make(chan *Conn)
 	dest.inConnUpdate = make(chan bool)
 	dest.flush = make(chan bool)
@@ -210,6 +212,17 @@ func (dest *Destination) Run() {
 	}
 	dest.tasks = sync.WaitGroup{}
 	go dest.relay()
+}
+
+// Send hands a metric to the destination's relay loop, which takes it right away.
+// A route dispatcher can still be working with a destination list from which this
+// destination has just been removed (and shut down): in that case nobody reads from
+// In anymore, so instead of blocking forever the metric is discarded.
+func (dest *Destination) Send(buf []byte) {
+	select {
+	case dest.In <- buf:
+	case <-dest.done:
+	}
 }
 
 func (dest *Destination) Flush() error {
@@ -264,6 +277,7 @@ func (dest *Destination) WaitOnline() chan struct{} {
 // TODO func (l *TCPListener) SetDeadline(t time.Time)
 // TODO Decide when to drop this buffer and move on.
 func (dest *Destination) relay() {
+	defer close(dest.done)
 	ticker := time.NewTicker(dest.periodReConn)
 	var toUnspool chan []byte
 	var conn *Conn
